@@ -244,8 +244,12 @@ def empty_inner(E, R, pos, L):
     comps[pos] = ""
     r = E.run(R.wallet_utils.Bip32Path.parse, fmt(E, "m", comps))
     E.check(isinstance(r, Raised), "empty inner component raises")
-    w, master = _wallet(E, R)
-    r2 = E.run(w.by_path, fmt(E, "m", comps))
+    _stub(E, R, True)
+    try:
+        w, master = _wallet(E, R)
+        r2 = E.run(w.by_path, fmt(E, "m", comps))
+    finally:
+        _stub(E, R, False)
     E.check(isinstance(r2, Raised), "empty inner component raises (by_path)")
     return "raised"
 
